@@ -344,9 +344,12 @@ def run_prob(spec, props=("C12",)):
             traj = []
             t = tmin
             tlast = max(ts) if ts else tmin
-            while t <= tlast:
-                gs = r.out.get_statuses(time=t)
-                traj.append(tuple(gs[v] for v in nodes)); t += 1
+            try:
+                while t <= tlast:
+                    gs = r.out.get_statuses(time=t)
+                    traj.append(tuple(gs[v] for v in nodes)); t += 1
+            except Exception as e:
+                return ("EXC", "full_data_" + type(e).__name__, "the returned Simulation_Investigation cannot report statuses of all nodes: %r" % (e,))
             return ("TRAJ", tuple(traj))
         return ("ARR", tuple(zip(*[np.asarray(a).tolist() for a in r.out])))
 
@@ -393,6 +396,8 @@ def run_prob(spec, props=("C12",)):
         out = r.out
         if full != hasattr(out, "get_statuses"):
             continue    # reported through label()
+        if label(r)[0] == "EXC":
+            continue
         arrs = None if full else list(out)
         A.outcomes.add(hsh(label(r)))
         A.count["rows_checked"] = A.count.get("rows_checked", 0) + 1
